@@ -267,6 +267,14 @@ func GenBatch(t Target, prop string, seed uint64, n int, outdir string, nenum in
 		}
 		cfg.Meta.Pkg = &name
 		danglingFlag := false
+		if prop == "C20" && i >= n {
+			// only members that can be instantiated are of use here
+			for k := range cfg.Services {
+				if cfg.Services[k].Todo {
+					cfg.Services[k] = gen.Svc{Name: cfg.Services[k].Name, Value: `&"` + gen.FxPath + `".Node{}`, Scope: cfg.Services[k].Scope}
+				}
+			}
+		}
 		if prop == "C05" && i >= n && (i-n)%3 == 1 && cfg.Services[0].Ctor != "" {
 			// every third member of the family also refers to an undefined service (sorting before
 			// all others) and is built with --ignore-missing-services: the scope verdict must not change
